@@ -6,6 +6,16 @@ HERE = os.path.dirname(os.path.dirname(os.path.abspath(__file__)))
 ALL = ["C%02d" % i for i in range(1, 21)]
 
 CHECKS = {
+ "C19": dict(
+    category="model_checking", design_ref="DESIGN.md 5/C19",
+    text="The published pixel-format rules are transcribed into TLA+ (spec/Pixel.tla, spec/Etc1.tla: Morton tile order, per-format channel extraction with the statement's one-quantisation-step tolerance, ETC1/ETC1A4 block rules, RGB5A3, CI8 8x4 blocks with crop). TLC checks the index maps are bijections and the bit-field/arithmetics laws, generates payloads with the allowed output interval per byte (replayed through ctpk::read / mila::decode / Tpl::extract_textures / ColorFormat::decode under both arithmetic profiles) and checks every texel of images recorded from mila (all 65 536 values of each 16-bit format, random payloads, all sizes).",
+    note="Assurance of an independent executable reference, not of state-space exploration: the rules in the spec are hand-transcribed from the public format descriptions, so an error common to spec and code would go unseen. 1-bit alpha is unconstrained by the statement's inclusive tolerance. Formats not named in the statement are not exercised.",
+    technique="TLA+ reference decoder evaluated by TLC; spec->impl interval replay under two profiles; impl->spec per-texel validation by TLC"),
+ "C20": dict(
+    category="model_checking", design_ref="DESIGN.md 5/C20",
+    text="spec/TexContainers.tla gives, per container (CTPK, BCH, CGFX, TPL), the set of conforming layouts of a texture list (section order, name/payload placement, gaps), a reference reader and the payload extents. TLC checks well-formedness, non-overlap and reference-read = value on every generated file; mila's four readers are run on every file, on every strict prefix (must be Err when the cut removes payload bytes, never panic/abort/hang) and on damaged magic numbers, in a supervised worker under both profiles; returned names, dimensions and pixels are validated by TLC.",
+    note="0-6 textures, curated placements (3 per container quick, 122 thorough); panic-freedom on prefixes is observed, not proved. No container writer exists in mila, so the recorded direction re-checks reader outputs of generated files.",
+    technique="TLA+ layout spec + TLC; spec->impl replay of files, all prefixes and damaged magics in isolation; impl->spec validation of reader output"),
  "C05": dict(
     category="model_checking", design_ref="DESIGN.md 5/C05",
     text="spec/Parsers.tla defines, for every entry point that parses untrusted bytes, the legal outcomes (ok/err only, largest single allocation request <= 512*len+64KiB, accepted input re-serializable without panic), the must-reject predicates computed from the raw bytes in overflow-free arithmetic, and the boundary mutations of conforming base images (every header/table field x boundary values, all truncations). Inputs generated that way plus seeded random buffers/mutations are run through all 10 entry points in a supervised worker under both arithmetic profiles; TLC decides every observed outcome.",
